@@ -303,6 +303,22 @@ func (c *Ctx) summary(p *prover, fn *ssa.Function) []resultSummary {
 				}
 			}
 			for k, par := range fn.Params {
+				if !isIntType(par.Type()) {
+					continue
+				}
+				all := true
+				for _, r := range rets {
+					if !p.LE(r.Results[i], false, 0, par, false, 0, r) {
+						all = false
+						break
+					}
+				}
+				if all {
+					idx := k
+					out = append(out, resultSummary{result: i, kind: "le-param", param: idx})
+				}
+			}
+			for k, par := range fn.Params {
 				if !isStringLike(par.Type()) {
 					continue
 				}
